@@ -16,10 +16,14 @@
     sval_nested_seq_serde_malformed, structured_inspect_primitive,
     optional_none_absent, optional_some_is_plain, error_chain_kept, error_chain_lost_when_shared,
     read_path_invariant, read_path_invariant_values, read_path_invariant_sval, downcast_along_paths,
-    capture_idByDisplay
+    capture_idByDisplay,
+    sink_term_error_chain, sink_otlp_int_exact, sink_otlp_structure_preserved   (the "via each sink" clause; streams
+    `c13_term` / `c13_otlp` are shared with C13, whose models of the sinks these theorems are about)
 -/
 import EmitModel.Model.Capture
 import EmitModel.Lemmas.Capture
+import EmitModel.Model.Term
+import EmitModel.Lemmas.EncodeOtlp
 
 namespace EmitModel.C19
 open EmitModel.Capture
@@ -514,5 +518,44 @@ example : Survives .serdeJson (.error ["e"]) ∧ ¬ Survives .chain (.error ["e"
   constructor
   · exact ⟨by decide, fun _ => ⟨by decide, by decide⟩, fun h => by simp [isUnbufferedSval] at h⟩
   · intro h; exact (h.2.1 rfl).1 rfl
+
+/-! ### Via each sink (the sink models of C13: Model/Term.lean, Model/AnyValue.lean) -/
+
+section Sinks
+open EmitModel.Encode
+
+/-- the `err:` / `caused by:` block the terminal writer prints for a captured error -/
+def errBlock (top : String) (causes : List String) : String :=
+  "  err: " ++ top ++ "\n" ++ String.join (causes.map fun c => "  caused by: " ++ c ++ "\n")
+
+theorem sink_term_error_chain (e : Event) (x : Enc String) (top : String) (causes : List String)
+    (h : termOutput e = some x)
+    (he : (lookupFirst "err" e.props).bind PV.error? = some (top, causes))
+    (hm : ∀ mv, lookupFirst "metric_value" e.props = some mv → ∀ bs, seqView mv ≠ .seq bs) :
+    ∃ pre, x = .ok (pre ++ errBlock top causes) := by
+  unfold termOutput at h
+  simp only [he] at h
+  split at h
+  · cases h; exact ⟨_, rfl⟩
+  · rename_i mv hmv
+    split at h
+    · cases h
+    · cases h; exact ⟨_, rfl⟩
+    · cases h; exact ⟨_, rfl⟩
+    · rename_i bs _ hsv
+      exact absurd hsv (hm mv hmv _)
+
+/-- every integer, of any width and sign, reaches the OTLP sink exactly: as an `intValue` when it fits 64 signed
+    bits, otherwise as its exact decimal text — never rounded through a double -/
+theorem sink_otlp_int_exact (i : Int) :
+    anyValue (.int i) = .ok (if inI64 i then .int i else .str (toString i)) := by
+  cases h : inI64 i <;> simp [anyValue, h]
+
+/-- structured values reach the OTLP sink with their structure (restated from `C13.structure_preserved`) -/
+theorem sink_otlp_structure_preserved (a : AnyValue) (h : IntsFit a) : anyValue (embed a) = .ok a :=
+  structure_preserved_value a h
+
+example : anyValue (.int 18446744073709551615) = .ok (.str "18446744073709551615") := by rfl
+end Sinks
 
 end EmitModel.C19
